@@ -67,21 +67,9 @@ impl<T: Term> Term for C14nTerm<T> {
             .then(|| unimplemented!("Default implementation should have been overridden"))
     }
 
-    fn triple(&self) -> Option<[Self::BorrowTerm<'_>; 3]> {
-        unimplemented!()
-        // TODO when we need to support RDF-star,
-        // a good way to implement it will probably be to split Other()
-        // into Atom(T) and Triple(Box[Self; 3])
-    }
-
-    fn to_triple(self) -> Option<[Self; 3]>
-    where
-        Self: Sized,
-    {
-        unimplemented!()
-        // TODO when we need to support RDF-star,
-        // see triple() above
-    }
+    // triple() and to_triple() are deliberately not overridden:
+    // quoted triples are rejected upstream (see rdfc10::relabel_with),
+    // so the default implementations (returning None for every non-triple term) are correct.
 }
 
 pub fn cmp_c14n_terms<'a, 'b, T: Term>(
